@@ -10,7 +10,7 @@ DESIGN_REF = "DESIGN.md §9 C09, §12.C09"
 COQ_TARGETS = ["Properties/C09", "Pins/C09"]
 THEOREMS = [("PdfV.Properties.C09", n) for n in
             ["C09_read_your_writes", "C09_get_coherent", "C09_byte_len_fits", "C09_xref_roundtrip", "C09_prefix",
-             "C09_save_layout", "C09_reload", "C09_reload_untouched", "C09_failed_save_recovers", "C09_second_save",
+             "C09_save_layout", "C09_parse_ser", "C09_reload", "C09_reload_stream", "C09_locate_xref", "C09_load_table", "C09_reload_untouched", "C09_failed_save_recovers", "C09_second_save",
              "C09_wf_preserved"]]
 ANCHORS = ["file.rs", "xref.rs"]
 if os.environ.get("VP_DEV"):
@@ -20,8 +20,8 @@ TRUSTED_BASE = ["coqc 8.16.1 kernel (vm_compute for table lemmas and witnesses; 
                 "gen/extract_storage.py (regenerates the literals of save / write_stream / byte_len / XRefTable::new from file.rs, xref.rs)",
                 "Extraction + ExtrOcamlBasic, ocamlfind ocamlopt 4.13.1, coq/driver/main.ml",
                 "harness pdfh (harness/src/modes/storage.rs), tools/vplib, tools/oracle/pdfwriter.py + canon.py (base files and expected values by construction)"]
-ASSUMPTIONS = ["oracle premise parse_ser: parse_indirect_object at the position of `id gen obj\\n` ++ serialize(v) ++ `\\nendobj\\n` returns (id, gen, v) whatever follows (this is property C04; tested on every saved object of every case)",
-               "oracle premise parse_stable: an object that parses inside a buffer parses to the same value when bytes are appended to the buffer (tested: untouched objects after every save)",
+ASSUMPTIONS = ["(discharged) parse_ser is now the theorem C09_parse_ser: Syn.Parser.parse_indirect_object on `id gen obj\\n` ++ Syn.Serialize.ser(v) ++ `\\nendobj\\n` returns (id, gen, v) for every storable v (C04 composed with C03)",
+               "oracle premise parse_stable (C09_reload_untouched only): an object that parses inside a buffer parses to the same value when bytes are appended to the buffer (tested: untouched objects after every save)",
                "Rust usize/u64 arithmetic as written into the model (no overflow below 2^64)"]
 RULE = ("base files written by the specification-side writer (classic table / xref stream, compressed objects in an object stream, "
         "bytes before the header, generations > 0, one or two revisions, optional /Info), histories of 1-25 operations over "
@@ -41,13 +41,31 @@ XREF_PREFIX = b"s{54797065:N58526566;"
 NAME_CHARS = "ABCDEFGHIJKLMNOPQRSTUVWXYZabcdefghijklmnopqrstuvwxyz0123456789_.-"
 
 
+# values written through create/update/fulfil (not the base files, which the specification-side writer spells) range over
+# C04's whole storable domain: names with white-space, delimiters, '#' and non-ASCII letters, strings with CR/LF/NUL
+_WIDE = [False]
+WIDE_NAME_CHARS = NAME_CHARS + " #/()<>[]{}%\t\u00e9\u4e2d"
+
+
 def gen_name(rng):
+    if _WIDE[0] and rng.randrange(3) == 0:
+        return Name("".join(rng.choice(WIDE_NAME_CHARS) for _ in range(rng.randint(1, 8))))
     return Name("".join(rng.choice(NAME_CHARS) for _ in range(rng.randint(1, 8))))
+
+
+def gen_hvalue(rng, refs):
+    _WIDE[0] = True
+    try:
+        return gen_value(rng, refs, top=True)
+    finally:
+        _WIDE[0] = False
 
 
 def gen_string(rng):
     n = rng.randint(0, 12)
     kind = rng.randrange(4)
+    if _WIDE[0] and rng.randrange(4) == 0:
+        return bytes(rng.choice(b"ab\r\n\t\x00\\()\x7f") for _ in range(n))
     if kind == 0:
         return bytes(rng.choice(b"abc ()\\xyz012") for _ in range(n))
     if kind == 1:
@@ -247,7 +265,7 @@ def gen_history(rng, base, n_ops, n_saves, fail_mode):
                 h.add(b"S", "S")
                 h.add(b"R " + rtxt(some_ref()), "R", None)
                 # repair: replace the offending value / fulfil the promise, then save again
-                v = gen_value(rng, refs_pool(), top=True)
+                v = gen_hvalue(rng, refs_pool())
                 if fail_mode == "promise":
                     pending.remove(broken[1])
                     h.add(b"F %s %s" % (rtxt(broken), cv(v)), "F", broken, v); nh += 1; handles.append("u")
@@ -256,14 +274,14 @@ def gen_history(rng, base, n_ops, n_saves, fail_mode):
                 h.add(b"S", "S")
             else:
                 for p in list(pending):
-                    v = gen_value(rng, refs_pool(), top=True)
+                    v = gen_hvalue(rng, refs_pool())
                     h.add(b"F h%d %s" % (p, cv(v)), "F", ("h", p), v); nh += 1; handles.append("u")
                     pending.remove(p)
                 h.add(b"S", "S")
             continue
         k = rng.randrange(10)
         if k <= 1:
-            v = gen_value(rng, refs_pool(), top=True)
+            v = gen_hvalue(rng, refs_pool())
             h.add(b"C " + cv(v), "C", v); nh += 1; handles.append("c")
         elif k <= 4 and (updatable or handles):
             # update: base objects of every storage form, or a reference handed out earlier
@@ -274,13 +292,13 @@ def gen_history(rng, base, n_ops, n_saves, fail_mode):
                 touched.add(r[1]); hbase[nh] = r[1]
             elif r[1] in hbase:
                 touched.add(hbase[r[1]]); hbase[nh] = hbase[r[1]]
-            v = gen_value(rng, refs_pool(), top=True)
+            v = gen_hvalue(rng, refs_pool())
             h.add(b"U %s %s" % (rtxt(r), cv(v)), "U", r, v); nh += 1; handles.append("u")
         elif k == 5:
             h.add(b"P", "P"); pending.append(nh); nh += 1; handles.append("p")
         elif k == 6 and pending:
             p = pending.pop(rng.randrange(len(pending)))
-            v = gen_value(rng, refs_pool(), top=True)
+            v = gen_hvalue(rng, refs_pool())
             h.add(b"F h%d %s" % (p, cv(v)), "F", ("h", p), v); nh += 1; handles.append("u")
         elif k in (7, 8):
             h.add(b"R " + rtxt(some_ref()), "R", None)
